@@ -1,6 +1,7 @@
 /* h_fmtn.c - C09 for the entry points that hand the format to libc (wide printf family, all scanf_s functions, vprintf_s,
  * vfprintf_s).  The format is a fully symbolic string of at most FL characters over an alphabet that contains every
  * character the directive grammar distinguishes; libc is the contract model of models/fmt_models.c.
+ * C02 (FLEN slices): the format is an exact object; every read of the scanner, the entry and the libc model is bounds-checked.
  * Assertion: the model never performed a store; a format with an n conversion is rejected before libc is called. */
 #include "safeclib_private.h"
 #include "safe_lib.h"
@@ -49,11 +50,20 @@ V0(n_vfscanf, vfscanf_s(VH_STREAM, fmt, ap))
 V0(n_vscanf, vscanf_s(fmt, ap))
 #endif
 VH_MAIN_BEGIN
+#ifdef FLEN /* C02 slice: the format is an exact object of FLEN characters + terminator (natively flush against a guard page) */
+    unsigned flen = FLEN;
+    CH *fx = (CH *)vh_alloc((FLEN + 1) * sizeof(CH));
+    for (unsigned i = 0; i < FLEN; i++) fx[i] = (CH)ALPHA[in.f[i] % NALPHA];
+    fx[FLEN] = 0;
+    const CH *fmt = fx;
+    (void)flen; (void)fmtbuf;
+#else
     unsigned flen = in.flen % (FL + 1);
     for (unsigned i = 0; i < FL; i++)
         fmtbuf[i] = (i < flen) ? (CH)ALPHA[in.f[i] % NALPHA] : 0;
     fmtbuf[FL] = 0;
     const CH *fmt = fmtbuf;
+#endif
     set_str_constraint_handler_s(vh_handler);
     vh_libc_called = 0;
     vh_n_store = 0;
